@@ -13,3 +13,4 @@ open Neutrino.Utxo
 #print axioms C10_spin_only_above_tip
 #print axioms C10_all_answered_counterexample
 #print axioms C10_lost_counterexample
+#print axioms C10_source_facts
